@@ -898,10 +898,24 @@ bus_activation_reload (BusActivation     *activation,
 {
   DBusList      *link;
   char          *dir;
+  char          *new_address;
+  DBusHashTable *new_entries;
 
-  if (activation->server_address != NULL)
-    dbus_free (activation->server_address);
-  if (!_dbus_string_copy_data (address, &activation->server_address))
+  /* Replace each member only once its replacement exists, so that
+   * running out of memory never leaves a dangling or NULL pointer
+   * behind in an activation object that stays in use. */
+  if (!_dbus_string_copy_data (address, &new_address))
+    {
+      BUS_SET_OOM (error);
+      goto failed;
+    }
+
+  dbus_free (activation->server_address);
+  activation->server_address = new_address;
+
+  new_entries = _dbus_hash_table_new (DBUS_HASH_STRING, NULL,
+                                      (DBusFreeFunction)bus_activation_entry_unref);
+  if (new_entries == NULL)
     {
       BUS_SET_OOM (error);
       goto failed;
@@ -909,13 +923,7 @@ bus_activation_reload (BusActivation     *activation,
 
   if (activation->entries != NULL)
     _dbus_hash_table_unref (activation->entries);
-  activation->entries = _dbus_hash_table_new (DBUS_HASH_STRING, NULL,
-                                             (DBusFreeFunction)bus_activation_entry_unref);
-  if (activation->entries == NULL)
-    {
-      BUS_SET_OOM (error);
-      goto failed;
-    }
+  activation->entries = new_entries;
 
   _dbus_list_clear_full (&activation->directories,
                          (DBusFreeFunction) bus_service_directory_unref);
